@@ -34,6 +34,53 @@ def lock_mode(body):
     return "NoLock"
 
 
+AUDIT_RULES = os.path.join(os.path.dirname(os.path.abspath(__file__)), "C20_audit.json")
+REQUIRED_TLS = ["mfuse::ScriptExecutionStack::stackDepth", "mfuse::ScriptExecutionStack::maxStackDepth",
+                "mfuse::ThreadSingleton<mfuse::EventContext>::singleton"]
+
+
+def audit():
+    """every object symbol in a writable section of the static library built from the current
+    tree -> [(demangled name, kind, object file)]; TLS symbols are ThreadLocal, the others are
+    classified by props/C20_audit.json, no matching rule = Unaccounted"""
+    import subprocess
+    lib, _inc = vlib.build_lib("plain")
+    out = subprocess.run(["readelf", "-SsW", lib], capture_output=True, text=True, check=True).stdout
+    cur, secs, syms = None, {}, {}
+    for line in out.splitlines():
+        m = re.match(r"^File: .*\((.*)\)", line)
+        if m:
+            cur, secs = m.group(1), {}
+            continue
+        m = re.match(r"^\s*\[\s*(\d+)\]\s+(\S+)\s+(PROGBITS|NOBITS)\s+\S+\s+\S+\s+\S+\s+\S+\s+(\S*)", line)
+        if m:
+            secs[m.group(1)] = (m.group(2), m.group(4))
+            continue
+        m = re.match(r"^\s*\d+:\s+[0-9a-f]+\s+(\d+)\s+(OBJECT|TLS)\s+(\S+)\s+(\S+)\s+(\d+)\s+(\S+)$", line)
+        if m and m.group(5) in secs:
+            sname, flags = secs[m.group(5)]
+            if "W" not in flags or sname.startswith(".data.rel.ro"):
+                continue      # read-only data (vtables, typeinfo, const tables with relocations)
+            syms.setdefault(m.group(6), (m.group(2), re.sub(r"^\d+_", "", cur or "")))
+    if len(syms) < 50:
+        raise TranslatorError("the symbol audit found only %d writable objects in %s: readelf output not understood" % (len(syms), lib))
+    names = sorted(syms)
+    dem = subprocess.run(["c++filt"], input="\n".join(names) + "\n", capture_output=True, text=True, check=True).stdout.splitlines()
+    if len(dem) != len(names):
+        raise TranslatorError("c++filt returned %d names for %d symbols" % (len(dem), len(names)))
+    rules = [(re.compile(r["re"]), r["kind"]) for r in json.load(open(AUDIT_RULES))["rules"]]
+    table = []
+    for n, d in zip(names, dem):
+        typ, obj = syms[n]
+        kind = "ThreadLocal" if typ == "TLS" else next((k for rx, k in rules if rx.search(d)), "Unaccounted")
+        table.append((d, kind, obj))
+    return sorted(set(table))
+
+
+def coq_string(x):
+    return '"' + x.replace('"', '""') + '"'
+
+
 def translate():
     """-> (coq text, facts dict)"""
     src = open(HDR).read()
@@ -50,15 +97,26 @@ def translate():
     txt = ("(* C20/Generated.v - GENERATED on every run by props/C20.py from\n"
            "   include/morfuse/Common/MEM/BlockAlloc.h (lock taken by each BlockAllocSafe method),\n"
            "   ThreadSingleton.h, ScriptVM.h and set.h.  Do not edit. *)\n"
-           "From Morfuse Require Import C20.Model.\n\n"
+           "From Coq Require Import List String.\nFrom Morfuse Require Import C20.Model C20.Audit.\nImport ListNotations.\nLocal Open Scope string_scope.\n\n"
            "Definition mode_of (m : meth) : mode :=\n  match m with\n" +
            "".join("  | %s => %s\n" % (k, v) for k, v in modes.items()) + "  end.\n\n"
            "Definition context_singleton_is_thread_local : bool := %s.\n"
            "Definition interpreter_depth_is_thread_local : bool := %s.\n"
            "Definition default_set_pool_is_the_locked_one : bool := %s.\n" % (
                str(tl_singleton).lower(), str(tl_depth).lower(), str(default_safe).lower()))
+    table = audit()
+    txt += ("\n(* every object symbol in a writable section of the static library built from the current tree\n"
+            "   (readelf; thread-local = ELF type TLS; the other kinds by props/C20_audit.json) *)\n"
+            "Definition global_audit : list (string * gkind) :=\n  [ " +
+            "\n  ; ".join("(%s, %s)" % (coq_string(d), k) for d, k, _o in table) + " ].\n\n"
+            "Definition required_thread_local : list string :=\n  [ " + "; ".join(coq_string(x) for x in REQUIRED_TLS) + " ].\n")
+    kinds = {}
+    for _d, k, _o in table:
+        kinds[k] = kinds.get(k, 0) + 1
     return txt, {"lock_modes": modes, "thread_local_singleton": tl_singleton, "thread_local_depth": tl_depth,
-                 "default_set_pool_locked": default_safe}
+                 "default_set_pool_locked": default_safe, "audited_objects": len(table), "audit_by_kind": kinds,
+                 "unaccounted": [[d, o] for d, k, o in table if k == "Unaccounted"],
+                 "thread_local_objects": [d for d, k, _o in table if k == "ThreadLocal"]}
 
 
 def write_if_changed(path, txt):
@@ -96,11 +154,15 @@ def tsan_runs(res, tier, seed):
 
 
 def check(res, tier, seed):
-    res.cov["rule"] += ("C20: the lock modes of BlockAllocSafe are re-extracted from BlockAlloc.h into coq/C20/Generated.v and the protocol theorem is re-checked; "
-                        "then N OS threads (2..8 quick, 2..16 thorough) each drive their own ScriptContext through compile/execute/wait/reset/destroy under "
+    res.cov["rule"] += ("C20: every object symbol in a writable section of the library built from the current tree is listed (readelf) and classified into coq/C20/Generated.v "
+                        "(thread-local by ELF type, the rest by props/C20_audit.json; no rule = Unaccounted breaks the audit theorem); "
+                        "the lock modes of BlockAllocSafe are re-extracted from BlockAlloc.h into coq/C20/Generated.v and the protocol theorem is re-checked; "
+                        "then N OS threads (2..8 quick, 2..16 thorough) each drive their own ScriptContext through compile/execute/wait/nested waitthread calls/reset/destroy (every other host sets its own interpreter nesting limit) under "
                         "ThreadSanitizer with seed-dependent start offsets; per-thread output must equal the solo run; distinct = distinct (threads, rounds) shapes. ")
     res.assumptions += ["partial: the theorem covers the lock protocol of the shared pools for every schedule and every number of threads; all other potential races are sampled by ThreadSanitizer only",
-                        "thread_local-ness of the context singleton and of the interpreter depth counter is read off the declarations (Generated.v), not proved"]
+                        "the audit of process-wide objects is complete for the binary built from the current tree (checked on every run), but the usage rule of each kind "
+                        "(InitOnly/HostConfig objects are not written while engines run, pools are only touched through BlockAllocSafe) is a claim recorded in props/C20_audit.json, trusted and sampled by ThreadSanitizer",
+                        "heap objects reachable from two engines (none by design: each ScriptContext owns its objects) are outside the audit; str::operator[]'s out-of-range sink is a formal race only under host misuse"]
     tie_broken = None
     try:
         txt, facts = translate()
@@ -117,7 +179,7 @@ def check(res, tier, seed):
     if tie_broken or not pst["ok"]:
         if not fails:
             res.violation({"property": CID, "kind": "proof-broken",
-                           "broken": tie_broken or "Coq build of C20/Properties.vo (the generated lock modes no longer satisfy the protocol, or a declaration stopped being thread_local)",
+                           "broken": tie_broken or ("Coq build of C20/Properties.vo (the generated lock modes no longer satisfy the protocol, a process-wide object is unaccounted for, or a declaration stopped being thread_local); unaccounted: %s" % res.cov.get("generated", {}).get("unaccounted")),
                            "generated": res.cov.get("generated"), "log": pst.get("build_log", "")[-2500:] + str(pst.get("props", {}).get("log", ""))[-2500:]},
                           no_input=True)
 
